@@ -117,6 +117,9 @@ def replay_any(p):
         return bool(r['fails']), r['text']
     if 'monitor' in p:
         return replay_monitor(p)
+    if p.get('kind') == 'schema':
+        from . import schema
+        return schema.replay(p)
     return False, 'nothing to replay'
 
 
@@ -133,3 +136,12 @@ def shape(res, name, target, predicate, detail, decisive=False):
         o.status, o.detail = 'notformed', f'{detail}: {e}'
     res.add(o)
     return o
+
+
+def monitor_if_present(res, ctx, module, timeout=1500):
+    import os
+    from . import VERIF
+    if not os.path.exists(os.path.join(VERIF, 'pv', 'nat', module + '.py')):
+        res.notes.append(f'bounded monitor {module} is not present')
+        return []
+    return monitor(res, ctx, module, timeout)
